@@ -4,7 +4,7 @@ from __future__ import annotations
 import ast
 from typing import Dict, List, Optional, Set, Tuple
 
-from ..callgraph import all_nodes, get_cg
+from ..callgraph import all_nodes, get_cg, own_nodes
 from ..cfg import CFG, ENTRY, EXIT, target_names
 from ..core import Ctx
 from ..flow import call_name, get_flow
@@ -23,6 +23,14 @@ STATE_TABLE = {
     'cli._deprecated_parser_warnings': 'output-only',   # de-duplicates a warning message, never read by classification
 }
 ENGINE_RESET_EXEMPT = {'match_mode'}       # configuration, set by the constructor
+# who may look at the state (confirmed by reading): the cache protocol of R3 only covers these readers; anybody else that consults the state
+# gets whatever an earlier call left there
+STATE_READERS = {
+    'expr_parser._expression_cache': {'expr_parser.parse_expression'},
+    'expr_parser._regex_cache': {'expr_parser.TransactionContext._fn_regex'},
+    'merchant_utils._cached_engine': {'merchant_utils.get_cached_engine', 'merchant_utils.clear_engine_cache', 'merchant_utils.get_all_rules', 'merchant_utils.normalize_merchant'},
+    'merchant_utils._cached_engine_path': {'merchant_utils.clear_engine_cache', 'merchant_utils.get_all_rules'},
+}
 
 
 def check(ctx: Ctx) -> None:
@@ -124,6 +132,21 @@ def r1_inventory(ctx: Ctx) -> None:
     for name in STATE_TABLE:
         if name not in muts:
             ctx.notes.append(f'{name} is in the state table but no longer mutated')
+    # readers of the classified state
+    for name, allowed in sorted(STATE_READERS.items()):
+        mod, var = name.rsplit('.', 1)
+        mi = proj.module(mod)
+        for f in [x for x in proj.all_funcs() if x.module is mi]:
+            if f.short in allowed or any(f.short.startswith(a + '.') for a in allowed):
+                continue
+            fl_ = None
+            for n in own_nodes(f.node):
+                if isinstance(n, ast.Name) and n.id == var and isinstance(n.ctx, ast.Load):
+                    fl_ = fl_ or get_flow(proj, f)
+                    if fl_.is_local(var) and not any(isinstance(g_, ast.Global) and var in g_.names for g_ in own_nodes(f.node)):
+                        continue
+                    ctx.fail('C07.R1', f, f'state-reader:{var}', f'{f.short} reads {name}, which belongs to {sorted(allowed)}: what it finds there was left by whichever file was loaded '
+                             f'before (a rules file reloaded after an edit gets the previous load\'s data)', n)
     # mutable default arguments that are mutated
     n_def = 0
     for f in proj.all_funcs():
@@ -186,6 +209,15 @@ def r2_memo(ctx: Ctx) -> None:
             bare = isinstance(key, ast.Name) and key.id in f.params or _is_vararg_item(f, fl, key, n)
             ok = vparams <= kparams and bare
             why = []
+            # a memo holds what the computation produced for that key: a stand-in stored when the computation failed (in a handler, or a value that
+            # does not come from the key at all) makes later calls succeed where the first one raised
+            kvars = {x.split(':', 1)[1] for x in fl.atoms(key, n) if x.startswith(('param:', 'name:', 'loopvar:'))}
+            vvars = {x.split(':', 1)[1] for x in fl.atoms(n.value, n) if x.startswith(('param:', 'name:', 'loopvar:'))}
+            in_handler = any(isinstance(a_, ast.ExceptHandler) for a_ in ancestors(n))
+            if in_handler or not (kvars & vvars):
+                ok = False
+                why.append('the stored value is not computed from the key' + (' (stored in an exception handler)' if in_handler else '') +
+                           ': after a failure the cache answers instead of the computation, so the first transaction sees an error and the later ones a result')
             if not vparams <= kparams:
                 why.append(f'value depends on {sorted(vparams - kparams)} which the key does not carry')
             if not bare:
@@ -436,6 +468,32 @@ def _judge(ctx, f: FuncInfo, fl, recv, node, what) -> None:
                   f'{what} on parameter {root} ({why}): classification mutates its input', node)
         return
     if _fresh(fl, root, node):
+        # a copy is only one level deep: writing *through* one of its entries (copy['field'][k] = v) reaches the object the original holds, unless
+        # that entry was itself given a fresh value
+        depth, e_ = 0, recv
+        while isinstance(e_, (ast.Subscript, ast.Attribute)):
+            depth += 1
+            e_ = e_.value
+        shallow_of_param = False
+        for d_ in fl.cfg.defs_reaching(fl.stmt_of(node), root):
+            if d_ == 'param':
+                continue
+            v_ = getattr(fl.cfg.stmt[d_], 'value', None)
+            if isinstance(v_, ast.Call) and ((isinstance(v_.func, ast.Name) and v_.func.id in ('dict', 'list') and v_.args and root_name(v_.args[0]) in f.params) or
+                                             (isinstance(v_.func, ast.Attribute) and v_.func.attr == 'copy' and root_name(v_.func.value) in f.params)):
+                shallow_of_param = True
+        if depth >= 1 and shallow_of_param and isinstance(recv, ast.Subscript):
+            inner = src(recv)
+            fresh_entry = False
+            for s_ in fl.cfg.stmts():
+                if isinstance(s_, ast.Assign) and any(src(t_) == inner for t_ in s_.targets) and fl.cfg.dominates(s_, fl.stmt_of(node)):
+                    v2 = s_.value
+                    fresh_entry = isinstance(v2, (ast.Dict, ast.List, ast.Set, ast.DictComp, ast.ListComp)) or \
+                        (isinstance(v2, ast.Call) and call_name(v2) in ('dict', 'list', 'set', 'copy', 'deepcopy') )
+            ctx.check(fresh_entry, 'C07.R6', f, label, f'{what} on {inner}: an entry of a copy that was given a fresh value',
+                      f'{what} through {inner!r}: {root} is a one-level copy of {sorted(p_ for p_ in f.params if p_ != "self")[:1]}, so {inner} is still the caller\'s object and '
+                      f'evaluating one transaction changes it (a second evaluation of the same transaction gives another result)', node)
+            return
         ctx.ok('C07.R6', f, f'{what} on fresh local {root}', node, label)
         return
     leaves = fl.leaf_paths(recv, node)
@@ -495,5 +553,20 @@ def engine_memo_rule(ctx: Ctx, rule: str) -> None:
                           f'self.{t.value.attr}[{src(t.slice)}] memoises a value that depends only on its key',
                           f'self.{t.value.attr}[{src(t.slice)}] = … caches a value computed from {sorted(vdeps)} under a key that only carries {sorted(kdeps)} (missing {missing}): '
                           f'two rules / transactions that share the key get each other\'s result, so the outcome depends on what was classified before (rule names are not unique)', node)
+        # any other mutation of an engine attribute while classifying (self.X.add(…), self.X.append(…), self.X = …) is state that one transaction
+        # leaves for the next ones; nothing of the kind exists today (the compiled-expression cache is keyed by the expression text itself)
+        for node in all_nodes(m.node):
+            tgt = None
+            if isinstance(node, ast.Call) and isinstance(node.func, ast.Attribute) and node.func.attr in MUTATORS and isinstance(node.func.value, ast.Attribute) \
+                    and isinstance(node.func.value.value, ast.Name) and node.func.value.value.id == 'self':
+                tgt = node.func.value.attr
+            elif isinstance(node, (ast.Assign, ast.AugAssign)):
+                for t in (node.targets if isinstance(node, ast.Assign) else [node.target]):
+                    if isinstance(t, ast.Attribute) and isinstance(t.value, ast.Name) and t.value.id == 'self':
+                        tgt = t.attr
+            if tgt is not None and tgt not in ('_compiled_exprs',):
+                n += 1
+                ctx.fail(rule, m, f'engine-state:{tgt}', f'{src(node)[:60]!r} changes the engine (self.{tgt}) while a transaction is being classified: what it leaves there is seen by '
+                         f'every later transaction, so the result for a transaction depends on which ones were classified before it', node)
     if n == 0:
         ctx.ok(rule, match, 'classification stores nothing into engine attributes (no engine-level memo)', construct='engine-memo:none')
